@@ -399,10 +399,6 @@ func (pkg *Package) loadIncluded(mkline *MkLine, includingFile CurrPath) (includ
 	}
 	includedMklines = LoadMk(fullIncluded, pkg, 0)
 	if includedMklines != nil {
-		// Some fixes are already applied when parsing the lines.
-		// The included file may not be checked on its own, therefore
-		// save these fixes now, as they have already been logged.
-		includedMklines.SaveAutofixChanges()
 		return includedMklines, false
 	}
 
@@ -426,7 +422,6 @@ func (pkg *Package) loadIncluded(mkline *MkLine, includingFile CurrPath) (includ
 	fullIncludedFallback := dirname.JoinNoClean(includedFile)
 	includedMklines = LoadMk(fullIncludedFallback, pkg, 0)
 	if includedMklines != nil {
-		includedMklines.SaveAutofixChanges()
 		pkg.checkIncludePath(mkline, fullIncludedFallback)
 	}
 	return includedMklines, false
